@@ -15,7 +15,7 @@ from . import c13
 
 MANIFEST_ENTRY = {
     'category': 'proof',
-    'text': "for every built-in inside the engine's subset and every kind combination of its arguments, each heap write is proved to hit an object allocated during the call or the declared target of a documented mutator (append, insert_at, delete_at, remove, put, element/member assignment), changing exactly the targeted position/key; results of non-mutating operations are proved to be containers allocated during the call (no aliasing of an argument's host container); identifier lookup, argument passing and container literals are proved to store and return the same object (reference sharing); library code written in Checkerlang and the remaining built-ins are covered by before/after argument snapshots in the pool enumeration (bounded); destructuring (for-loop rows, def, assignment) does not write the destructured value (padding happens in a copy); member assignment to an inherited member writes the target, not the prototype; def leaves the bound value as it is (a named function keeps its name); a function definition evaluates neither its default expressions nor its body (defaults are evaluated at each call: no container shared between calls)",
+    'text': "for every built-in inside the engine's subset and every kind combination of its arguments, each heap write is proved to hit an object allocated during the call or the declared target of a documented mutator (append, insert_at, delete_at, remove, put, element/member assignment), changing exactly the targeted position/key; results of non-mutating operations are proved to be containers allocated during the call (no aliasing of an argument's host container); identifier lookup, argument passing and container literals are proved to store and return the same object (reference sharing); library code written in Checkerlang and the remaining built-ins are covered by before/after argument snapshots in the pool enumeration (bounded); destructuring (for-loop rows, def, assignment) does not write the destructured value (padding happens in a copy); member assignment to an inherited member writes the target, not the prototype; def leaves the bound value as it is (a named function keeps its name); a function definition evaluates neither its default expressions nor its body (defaults are evaluated at each call: no container shared between calls); results of library functions written in Checkerlang hold no container of the argument at any depth (units on the real AST); look-then-mutate programs for every container kind (bounded)",
     'note': 'collection arguments are small shapes with symbolic payloads (symbolic-bounded); callbacks abstract; one known finding: string element assignment overwrites the payload of the shared string object',
     'technique': 'deductive verification: frame obligations collected by pyvc on the symbolic heap + z3; bounded before/after snapshots for CKL library code',
 }
